@@ -352,6 +352,8 @@ ENGB_ASSUME = [
 
 ENGB["c15"] = dict(files=["internal/pkg/utils/fan.go", "internal/pkg/midi/process.go"])
 ENGB["c19"] = dict(files=["internal/pkg/midi/device/config/monitor.go"], fakes=("fsnotify",))
+_DEVFILES = ["internal/pkg/midi/device/events.go", "internal/pkg/midi/device/device.go", "internal/pkg/midi/device/open_rgb.go"]
+ENGB["c16"] = dict(files=_DEVFILES, access=_DEVFILES, sysroot=True, fakes=("openrgb",))
 
 
 @check("C15")
@@ -391,4 +393,18 @@ def c19(prop, tier, t0):
     return vlib.finish(prop, tier, "model_checking", m, cov, ENGB_ASSUME + [
         "the kernel's and fsnotify's own goroutine schedules are outside the scheduler; the real library is only exercised by the conformance pass (sentinel-delimited event lists per file operation, no timing oracle)",
         "consumers keep reading until the stream closes (a consumer that stops reading for good is outside the quantifier)",
+    ], t0)
+
+
+@check("C16")
+def c16(prop, tier, t0):
+    bound = 2 if tier == "quick" else 3
+    m, cov = engb_run(prop, tier, "c16", bound, budget="45s" if tier == "quick" else "900s")
+    cov["explanation"] = ("real device package (events.go, device.go, open_rgb.go instrumented incl. data-access annotations) + fake OpenRGB under the controlled scheduler: event feeder, MIDI-input feeder, output drainer, "
+                          "ProcessEvents with its LED and MIDI-input goroutines; OpenRGB absent / connected (virtual time), MIDI input nil / live, two devices on one output. Oracle per schedule: ProcessEvents returns after the stream "
+                          "ends and nothing it started stays blocked, no happens-before race on any mutable Device field, last LED frame all red, each device's output equals its output when run alone.")
+    return vlib.finish(prop, tier, "model_checking", m, cov, ENGB_ASSUME + [
+        "race detection is a vector-clock happens-before check over annotated accesses to mutable Device fields, with edges only from the program's own synchronisation; exhaustive over the explored schedules",
+        "timers and sleeps are virtual: each sleep/timer label may fire 'early' once (branching), afterwards only when nothing else can run; LED refresh iterations are therefore explored at arbitrary positions a bounded number of times",
+        "a stalled OpenRGB server (blocking socket) and the Status()/State() readers of cmd/hidi/cli.go are not modelled",
     ], t0)
